@@ -81,7 +81,7 @@ theorem xa_rvReadComplaints (E : Env) (tag : Tag) (j : Nat) (f : Nat) (it : Nat)
           · simp [bumpL, cpsL, h3]
       · simp only [h1, if_false]
         by_cases h4 : getUi v < E.n
-        · simp only [h4, if_true, true_and]
+        · simp only [h4, if_true]
           by_cases h2 : it + 1 ≤ E.n
           · simp only [h2, if_true]
             rw [ih _ _ (setB I j s1) (by simpa using hj), ag_bsOf_setB_self I j s1 hj, ag_setB_setB]
@@ -210,5 +210,923 @@ theorem xa_rvReadAnswers (E : Env) (tag : Tag) (C : List (List Int)) (j : Nat) (
                       refine ⟨s', sp', ?_⟩
                       rw [h, ag_rep0]
                       simp
+
+/-! ### (5) the loops over the senders -/
+
+variable (E : Env) [Fact (Nat.Prime E.G.p.natAbs)]
+
+
+/-- step 1(b), the commitments: lengths -/
+theorem xa_rvReadC_glob (tag : Tag) (L : List Nat) (I : Inbox) (hI : ∀ j ∈ L, j < I.b.length)
+    (C : List (List Int)) (cm : List Nat) :
+    (rvReadC E tag L I C cm).1.b.length = I.b.length ∧ (rvReadC E tag L I C cm).1.p = I.p ∧
+    (rvReadC E tag L I C cm).2.1.length = C.length := by
+  induction L generalizing I C cm with
+  | nil => simp [rvReadC]
+  | cons j rest ih =>
+    unfold rvReadC
+    by_cases hji : j = E.i
+    · simp only [hji, if_true]
+      exact ih I (fun k hk => hI k (List.mem_cons_of_mem _ hk)) C cm
+    · simp only [hji, if_false]
+      rw [ag_readElems tag j (E.t + 1) I (hI j (by simp))]
+      simp only
+      have := ih (setB I j (reS E.G tag (E.t + 1) (bsOf I j) [] false).2.1)
+        (fun k hk => by simpa using hI k (List.mem_cons_of_mem _ hk))
+        (C.set j (padRow E.t (reS E.G tag (E.t + 1) (bsOf I j) [] false).2.2))
+        (if (reS E.G tag (E.t + 1) (bsOf I j) [] false).1 = true then cm ++ [j] else cm)
+      simpa using this
+
+/-- step 1(b), the commitments: a sender that is not read -/
+theorem xa_rvReadC_frame (tag : Tag) (k : Nat) (L : List Nat) (I : Inbox) (hI : ∀ j ∈ L, j < I.b.length)
+    (C : List (List Int)) (cm : List Nat) (hk : k ∉ L ∨ k = E.i) :
+    bsOf (rvReadC E tag L I C cm).1 k = bsOf I k ∧ getRow (rvReadC E tag L I C cm).2.1 k = getRow C k ∧
+    (k ∈ (rvReadC E tag L I C cm).2.2 ↔ k ∈ cm) := by
+  induction L generalizing I C cm with
+  | nil => simp [rvReadC]
+  | cons j rest ih =>
+    unfold rvReadC
+    have hk' : k ∉ rest ∨ k = E.i := by
+      rcases hk with h | h
+      · exact Or.inl (fun hh => h (List.mem_cons_of_mem _ hh))
+      · exact Or.inr h
+    by_cases hji : j = E.i
+    · simp only [hji, if_true]
+      exact ih I (fun k hk => hI k (List.mem_cons_of_mem _ hk)) C cm hk'
+    · simp only [hji, if_false]
+      rw [ag_readElems tag j (E.t + 1) I (hI j (by simp))]
+      simp only
+      have hkj : j ≠ k := by
+        rintro rfl
+        rcases hk with h | h
+        · exact h (by simp)
+        · exact hji h
+      obtain ⟨h1, h2, h3⟩ := ih (setB I j (reS E.G tag (E.t + 1) (bsOf I j) [] false).2.1)
+        (fun k hk => by simpa using hI k (List.mem_cons_of_mem _ hk))
+        (C.set j (padRow E.t (reS E.G tag (E.t + 1) (bsOf I j) [] false).2.2))
+        (if (reS E.G tag (E.t + 1) (bsOf I j) [] false).1 = true then cm ++ [j] else cm) hk'
+      refine ⟨by rw [h1, ag_bsOf_setB_ne _ _ _ _ hkj], by rw [h2, ag_getRow_set]; simp [hkj], ?_⟩
+      rw [h3]
+      split
+      · simp [List.mem_append, Ne.symm hkj]
+      · rfl
+
+/-- step 1(b), the commitments: a sender that is read -/
+theorem xa_rvReadC_hit (tag : Tag) (k : Nat) (L : List Nat) (hL : L.Nodup) (I : Inbox)
+    (hI : ∀ j ∈ L, j < I.b.length) (C : List (List Int)) (cm : List Nat) (hk : k ∈ L) (hki : k ≠ E.i) :
+    bsOf (rvReadC E tag L I C cm).1 k = (reS E.G tag (E.t + 1) (bsOf I k) [] false).2.1 ∧
+    (k < C.length → getRow (rvReadC E tag L I C cm).2.1 k =
+      padRow E.t (reS E.G tag (E.t + 1) (bsOf I k) [] false).2.2) ∧
+    (k ∈ (rvReadC E tag L I C cm).2.2 ↔ k ∈ cm ∨ (reS E.G tag (E.t + 1) (bsOf I k) [] false).1 = true) := by
+  induction L generalizing I C cm with
+  | nil => simp at hk
+  | cons j rest ih =>
+    have hnd := List.nodup_cons.mp hL
+    unfold rvReadC
+    by_cases hji : j = E.i
+    · simp only [hji, if_true]
+      have hk2 : k ∈ rest := by
+        rcases List.mem_cons.mp hk with h | h
+        · exact absurd (h.trans hji) hki
+        · exact h
+      exact ih hnd.2 I (fun k hk => hI k (List.mem_cons_of_mem _ hk)) C cm hk2
+    · simp only [hji, if_false]
+      rw [ag_readElems tag j (E.t + 1) I (hI j (by simp))]
+      simp only
+      have hI' : ∀ k ∈ rest, k < (setB I j (reS E.G tag (E.t + 1) (bsOf I j) [] false).2.1).b.length :=
+        fun k hk => by simpa using hI k (List.mem_cons_of_mem _ hk)
+      rcases List.mem_cons.mp hk with h | h
+      · subst h
+        obtain ⟨h1, h2, h3⟩ := xa_rvReadC_frame E tag k rest
+          (setB I k (reS E.G tag (E.t + 1) (bsOf I k) [] false).2.1) hI'
+          (C.set k (padRow E.t (reS E.G tag (E.t + 1) (bsOf I k) [] false).2.2))
+          (if (reS E.G tag (E.t + 1) (bsOf I k) [] false).1 = true then cm ++ [k] else cm) (Or.inl hnd.1)
+        refine ⟨by rw [h1, ag_bsOf_setB_self _ _ _ (hI k (by simp))], ?_, ?_⟩
+        · intro hkC
+          rw [h2, ag_getRow_set]
+          simp [hkC]
+        · rw [h3]
+          split
+          · rename_i hc
+            simp [hc]
+          · rename_i hc
+            simp [hc]
+      · have hkj : j ≠ k := by
+          rintro rfl
+          exact hnd.1 h
+        obtain ⟨h1, h2, h3⟩ := ih hnd.2 (setB I j (reS E.G tag (E.t + 1) (bsOf I j) [] false).2.1) hI'
+          (C.set j (padRow E.t (reS E.G tag (E.t + 1) (bsOf I j) [] false).2.2))
+          (if (reS E.G tag (E.t + 1) (bsOf I j) [] false).1 = true then cm ++ [j] else cm) h
+        rw [ag_bsOf_setB_ne _ _ _ _ hkj] at h1 h2 h3
+        refine ⟨h1, ?_, ?_⟩
+        · intro hkC
+          exact h2 (by simpa using hkC)
+        · rw [h3]
+          split
+          · simp [List.mem_append, Ne.symm hkj]
+          · rfl
+
+/-- a `GenSt` with the index of the environment: `rvReadShares` is `genReadShares` for it -/
+def gstOf (E : Env) : GenSt := { n := E.n, t := E.t, i := E.i, sfb := false }
+
+theorem xa_rvReadShares_eq (L : List Nat) (I : Inbox) (s sp : List Int) (cm : List Nat) :
+    rvReadShares E L I s sp cm = genReadShares E.G.q (gstOf E) L I s sp cm := by
+  induction L generalizing I s sp cm with
+  | nil => rfl
+  | cons j rest ih =>
+    unfold rvReadShares genReadShares
+    simp only [gstOf, ih]
+    rfl
+
+/-! arithmetic never fails on the values the readers feed to it -/
+
+theorem xa_raT_total (hG : ValidGrp E.G) (tag : Tag) (Cj : List Int) (f : Nat) (s : List (Tag × Int)) :
+    ∃ r, raT E tag Cj f s = .ok r := by
+  induction f generalizing s with
+  | zero => exact ⟨_, rfl⟩
+  | succ f ih =>
+    unfold raT
+    rcases popS tag s with ⟨_ | w, s1⟩
+    · exact ⟨_, rfl⟩
+    · simp only
+      split
+      · exact ⟨_, rfl⟩
+      · rcases popS tag s1 with ⟨_ | foo0, s2⟩
+        · exact ⟨_, rfl⟩
+        · simp only
+          rcases popS tag s2 with ⟨_ | bar0, s3⟩
+          · exact ⟨_, rfl⟩
+          · simp only
+            obtain ⟨l, hl⟩ := ag_pedF_total hG foo0 bar0
+            obtain ⟨r, hr⟩ := ag_commitProd_total hG (E.pt (getUi w)) Cj
+            obtain ⟨r3, hr3⟩ := ih s3
+            rw [hl, hr, hr3]
+            exact ⟨_, rfl⟩
+
+/-- whether the answers of a dealer (stream `s`, commitments `Cj`) put it on the complaint list -/
+def raBadT (E : Env) (tag : Tag) (Cj : List Int) (s : List (Tag × Int)) : Bool :=
+  match raT E tag Cj (E.n + 1) s with
+  | .ok r => decide (0 < r.1)
+  | .error _ => true
+
+/-- the shares stored in step 1(d) are in range -/
+theorem xa_rvReadAnswers_InR (hq : 0 < E.G.q) (tag : Tag) (C : List (List Int)) (j : Nat) (f : Nat) (I : Inbox)
+    (s sp : List Int) (cm an : List Nat) (r : Inbox × List Int × List Int × List Nat × List Nat)
+    (h : rvReadAnswers E tag C j f I s sp cm an = .ok r) (hs : InR E.G.q s) : InR E.G.q r.2.1 := by
+  induction f generalizing I s sp cm an with
+  | zero =>
+    simp only [rvReadAnswers] at h
+    injection h with h
+    rw [← h]; exact hs
+  | succ f ih =>
+    unfold rvReadAnswers at h
+    rcases hp1 : I.popB tag j with ⟨_ | w, I1⟩
+    · rw [hp1] at h
+      injection h with h
+      rw [← h]; exact hs
+    · rw [hp1] at h
+      simp only at h
+      split at h
+      · injection h with h
+        rw [← h]; exact hs
+      · rcases hp2 : I1.popB tag j with ⟨_ | foo0, I2⟩
+        · rw [hp2] at h
+          injection h with h
+          rw [← h]; exact hs
+        · rw [hp2] at h
+          simp only at h
+          rcases hp3 : I2.popB tag j with ⟨_ | bar0, I3⟩
+          · rw [hp3] at h
+            injection h with h
+            rw [← h]; exact hs
+          · rw [hp3] at h
+            simp only [ag_ite_pair] at h
+            obtain ⟨lhs, -, h⟩ := ag_bind_ok _ _ _ h
+            obtain ⟨rhs, -, h⟩ := ag_bind_ok _ _ _ h
+            split at h
+            · exact ih _ _ _ _ _ h hs
+            · split at h
+              · exact ih _ _ _ _ _ h (ag_InR_set E.G.q s j _ hs (ag_absGe_range E.G.q hq foo0))
+              · exact ih _ _ _ _ _ h hs
+
+/-- whether dealer `k` (stream `s`) left a complainer without an answer -/
+def unBT (E : Env) (tag : Tag) (rv : Rv) (k : Nat) (s : List (Tag × Int)) : Bool :=
+  (rv.complainers.getD k []).any (fun c => !(anT tag E.n (E.n + 1) s []).contains c)
+
+/-- step 1(d): the loop over the dealers -/
+theorem xa_rvResolveGo (hG : ValidGrp E.G) (tag : Tag) (rv : Rv) (L : List Nat) (hL : L.Nodup) (I : Inbox)
+    (hI : ∀ j ∈ L, j < I.b.length) (s sp : List Int) (cm : List Nat) :
+    ∃ I' s' sp' cm', rvResolveGo E tag rv L I s sp cm = .ok (I', s', sp', cm') ∧
+      (InR E.G.q s → InR E.G.q s') ∧
+      ∀ k, k ∈ cm' ↔ k ∈ cm ∨ (k ∈ L ∧ (E.t < getN rv.cnt k ∨
+        (k ≠ E.i ∧ (raBadT E tag (getRow rv.C k) (bsOf I k) = true ∨ unBT E tag rv k (bsOf I k) = true)))) := by
+  induction L generalizing I s sp cm with
+  | nil => exact ⟨I, s, sp, cm, rfl, id, by simp⟩
+  | cons j rest ih =>
+    have hnd := List.nodup_cons.mp hL
+    have hIr : ∀ k ∈ rest, k < I.b.length := fun k hk => hI k (List.mem_cons_of_mem _ hk)
+    unfold rvResolveGo
+    by_cases hji : j = E.i
+    · subst hji
+      simp only [if_true]
+      obtain ⟨I', s', sp', cm', h, hin, hm⟩ := ih hnd.2 I hIr s sp
+        (if getN rv.cnt E.i > E.t then cm ++ [E.i] else cm)
+      refine ⟨I', s', sp', cm', h, hin, ?_⟩
+      intro k
+      rw [hm k]
+      by_cases hkj : k = E.i
+      · have : k ∉ rest := by rw [hkj]; exact hnd.1
+        subst hkj
+        by_cases hc : getN rv.cnt E.i > E.t
+        · simp [hc]
+        · have hc' : ¬ E.t < getN rv.cnt E.i := hc
+          simp [hc', this]
+      · by_cases hc : getN rv.cnt E.i > E.t
+        · simp [hc, hkj]
+        · simp [hc, hkj]
+    · simp only [hji, if_false]
+      obtain ⟨⟨bad, rst⟩, hr⟩ := xa_raT_total E hG tag (getRow rv.C j) (E.n + 1) (bsOf I j)
+      have hra := xa_rvReadAnswers E tag rv.C j (E.n + 1) I (hI j (by simp)) s sp
+        (if getN rv.cnt j > E.t then cm ++ [j] else cm) []
+      rw [hr] at hra
+      obtain ⟨s1, sp1, hra⟩ := hra
+      obtain ⟨I', s', sp', cm', h, hin, hm⟩ := ih hnd.2 (setB I j rst)
+        (fun k hk => by simpa using hIr k hk) s1 sp1
+        ((if getN rv.cnt j > E.t then cm ++ [j] else cm) ++ List.replicate bad j ++
+          ((rv.complainers.getD j []).filter (fun c => !(anT tag E.n (E.n + 1) (bsOf I j) []).contains c)).map
+            (fun _ => j))
+      have hin1 : InR E.G.q s → InR E.G.q s1 := fun hs =>
+        xa_rvReadAnswers_InR E hG.vg.q_pos tag rv.C j (E.n + 1) I s sp _ [] _ hra hs
+      refine ⟨I', s', sp', cm', ?_, fun hs => hin (hin1 hs), ?_⟩
+      · simp only [hra, bind, Except.bind]
+        exact h
+      · intro k
+        rw [hm k]
+        by_cases hkj : k = j
+        · subst hkj
+          have : k ∉ rest := hnd.1
+          by_cases hc : getN rv.cnt k > E.t
+          · simp [hc]
+          · have hc' : ¬ E.t < getN rv.cnt k := hc
+            simp [this, hc, hji, raBadT, unBT, hr, List.mem_replicate, Nat.pos_iff_ne_zero]
+            tauto
+        · have hb : bsOf (setB I j rst) k = bsOf I k := ag_bsOf_setB_ne _ _ _ _ (Ne.symm hkj)
+          by_cases hc : getN rv.cnt j > E.t
+          · simp [hkj, hb, hc, List.mem_replicate]
+          · simp [hkj, hb, hc, List.mem_replicate]
+
+/-- the test of equation (1) for dealer `k` (no sharing of zero) -/
+def chkT (E : Env) (C : List (List Int)) (s sp : List Int) (k : Nat) : Bool :=
+  match pedS E.G (getI s k) (getI sp k), commitProd E.G.p (E.pt E.i) (getRow C k) with
+  | .ok lhs, .ok rhs => lhs.2 != rhs
+  | _, _ => true
+
+/-- step 1(b), equation (1): the loop over the dealers -/
+theorem xa_rvCheck (hG : ValidGrp E.G) (C : List (List Int)) (s sp : List Int)
+    (hs : InR E.G.q s) (hsp : InR E.G.q sp) (L : List Nat) (cm : List Nat) :
+    ∃ cm', rvCheck E false C s sp L cm = .ok cm' ∧
+      ∀ k, k ∈ cm' ↔ k ∈ cm ∨ (k ∈ L ∧ chkT E C s sp k = true) := by
+  induction L generalizing cm with
+  | nil => exact ⟨cm, rfl, by simp⟩
+  | cons j rest ih =>
+    obtain ⟨a, l, hped, -⟩ := pedS_val hG (getI s j) (getI sp j)
+      (ag_getI_InR E.G.q hG.vg.q_pos s hs j) (ag_getI_InR E.G.q hG.vg.q_pos sp hsp j)
+    obtain ⟨r, hr⟩ := ag_commitProd_total hG (E.pt E.i) (getRow C j)
+    obtain ⟨cm', h, hm⟩ := ih (if (l != r) = true then cm ++ [j] else cm)
+    refine ⟨cm', ?_, ?_⟩
+    · unfold rvCheck
+      simp only [hped, hr, bind, Except.bind, Bool.false_and, Bool.false_eq_true, if_false]
+      exact h
+    · intro k
+      rw [hm k]
+      by_cases hkj : k = j
+      · subst hkj
+        by_cases hlr : (l != r) = true
+        · simp [chkT, hped, hr, hlr]
+        · simp [chkT, hped, hr, hlr]
+      · split <;> simp [hkj]
+
+/-! the complaint counters -/
+
+def rcNewsT (tag : Tag) (n : Nat) (s : List (Tag × Int)) : List Nat := (rcT tag n (n + 1) 0 [] s).1
+def rcBadT (tag : Tag) (n : Nat) (s : List (Tag × Int)) : Bool := decide (0 < (rcT tag n (n + 1) 0 [] s).2.1)
+def rcRestT (tag : Tag) (n : Nat) (s : List (Tag × Int)) : List (Tag × Int) := (rcT tag n (n + 1) 0 [] s).2.2
+
+theorem xa_rvCollectGo_cons (tag : Tag) (j : Nat) (rest : List Nat) (I : Inbox) (hj : j < I.b.length)
+    (hji : j ≠ E.i) (cnt cf cm : List Nat) (cps : List (List Nat)) :
+    rvCollectGo E tag (j :: rest) I cnt cf cm cps =
+      rvCollectGo E tag rest (setB I j (rcRestT tag E.n (bsOf I j))) (bumpL cnt (rcNewsT tag E.n (bsOf I j)))
+        (cf ++ ((rcNewsT tag E.n (bsOf I j)).filter (fun w => w = E.i)).map (fun _ => j))
+        (cm ++ List.replicate (rcT tag E.n (E.n + 1) 0 [] (bsOf I j)).2.1 j)
+        (cpsL j (rcNewsT tag E.n (bsOf I j)) cps) := by
+  rw [rvCollectGo]
+  simp only [hji, if_false]
+  rw [xa_rvReadComplaints E tag j (E.n + 1) 0 [] I hj]
+  rfl
+
+theorem xa_cpsL_length (j : Nat) (ws : List Nat) (cps : List (List Nat)) : (cpsL j ws cps).length = cps.length := by
+  induction ws generalizing cps with
+  | nil => rfl
+  | cons w ws ih =>
+    simp only [cpsL, List.foldl_cons] at ih ⊢
+    rw [ih]
+    simp
+
+/-- step 1(c): lengths -/
+theorem xa_rvCollectGo_glob (tag : Tag) (L : List Nat) (I : Inbox) (hI : ∀ j ∈ L, j < I.b.length)
+    (cnt cf cm : List Nat) (cps : List (List Nat)) :
+    (rvCollectGo E tag L I cnt cf cm cps).1.b.length = I.b.length ∧ (rvCollectGo E tag L I cnt cf cm cps).1.p = I.p ∧
+    (rvCollectGo E tag L I cnt cf cm cps).2.1.length = cnt.length ∧
+    (rvCollectGo E tag L I cnt cf cm cps).2.2.2.2.length = cps.length := by
+  induction L generalizing I cnt cf cm cps with
+  | nil => simp [rvCollectGo]
+  | cons j rest ih =>
+    by_cases hji : j = E.i
+    · rw [rvCollectGo]
+      simp only [hji, if_true]
+      exact ih I (fun k hk => hI k (List.mem_cons_of_mem _ hk)) cnt cf cm cps
+    · rw [xa_rvCollectGo_cons E tag j rest I (hI j (by simp)) hji]
+      obtain ⟨h1, h2, h3, h4⟩ := ih (setB I j (rcRestT tag E.n (bsOf I j)))
+        (fun k hk => by simpa using hI k (List.mem_cons_of_mem _ hk))
+        (bumpL cnt (rcNewsT tag E.n (bsOf I j)))
+        (cf ++ ((rcNewsT tag E.n (bsOf I j)).filter (fun w => w = E.i)).map (fun _ => j))
+        (cm ++ List.replicate (rcT tag E.n (E.n + 1) 0 [] (bsOf I j)).2.1 j)
+        (cpsL j (rcNewsT tag E.n (bsOf I j)) cps)
+      exact ⟨by rw [h1]; simp, by rw [h2]; rfl, by rw [h3, ag_bumpL_length], by rw [h4, xa_cpsL_length]⟩
+
+/-- step 1(c): a sender that is not read -/
+theorem xa_rvCollectGo_frame (tag : Tag) (k : Nat) (L : List Nat) (I : Inbox) (hI : ∀ j ∈ L, j < I.b.length)
+    (cnt cf cm : List Nat) (cps : List (List Nat)) (hk : k ∉ L ∨ k = E.i) :
+    bsOf (rvCollectGo E tag L I cnt cf cm cps).1 k = bsOf I k ∧
+    (k ∈ (rvCollectGo E tag L I cnt cf cm cps).2.2.2.1 ↔ k ∈ cm) := by
+  induction L generalizing I cnt cf cm cps with
+  | nil => simp [rvCollectGo]
+  | cons j rest ih =>
+    have hk' : k ∉ rest ∨ k = E.i := by
+      rcases hk with h | h
+      · exact Or.inl (fun hh => h (List.mem_cons_of_mem _ hh))
+      · exact Or.inr h
+    by_cases hji : j = E.i
+    · rw [rvCollectGo]
+      simp only [hji, if_true]
+      exact ih I (fun k hk => hI k (List.mem_cons_of_mem _ hk)) cnt cf cm cps hk'
+    · rw [xa_rvCollectGo_cons E tag j rest I (hI j (by simp)) hji]
+      have hkj : j ≠ k := by
+        rintro rfl
+        rcases hk with h | h
+        · exact h (by simp)
+        · exact hji h
+      obtain ⟨h1, h2⟩ := ih (setB I j (rcRestT tag E.n (bsOf I j)))
+        (fun k hk => by simpa using hI k (List.mem_cons_of_mem _ hk))
+        (bumpL cnt (rcNewsT tag E.n (bsOf I j)))
+        (cf ++ ((rcNewsT tag E.n (bsOf I j)).filter (fun w => w = E.i)).map (fun _ => j))
+        (cm ++ List.replicate (rcT tag E.n (E.n + 1) 0 [] (bsOf I j)).2.1 j)
+        (cpsL j (rcNewsT tag E.n (bsOf I j)) cps) hk'
+      refine ⟨by rw [h1, ag_bsOf_setB_ne _ _ _ _ hkj], ?_⟩
+      rw [h2]
+      simp [List.mem_append, List.mem_replicate, Ne.symm hkj]
+
+/-- step 1(c): a sender that is read -/
+theorem xa_rvCollectGo_hit (tag : Tag) (k : Nat) (L : List Nat) (hL : L.Nodup) (I : Inbox)
+    (hI : ∀ j ∈ L, j < I.b.length) (cnt cf cm : List Nat) (cps : List (List Nat)) (hk : k ∈ L) (hki : k ≠ E.i) :
+    bsOf (rvCollectGo E tag L I cnt cf cm cps).1 k = rcRestT tag E.n (bsOf I k) ∧
+    (k ∈ (rvCollectGo E tag L I cnt cf cm cps).2.2.2.1 ↔ k ∈ cm ∨ rcBadT tag E.n (bsOf I k) = true) := by
+  induction L generalizing I cnt cf cm cps with
+  | nil => simp at hk
+  | cons j rest ih =>
+    have hnd := List.nodup_cons.mp hL
+    by_cases hji : j = E.i
+    · rw [rvCollectGo]
+      simp only [hji, if_true]
+      have hk2 : k ∈ rest := by
+        rcases List.mem_cons.mp hk with h | h
+        · exact absurd (h.trans hji) hki
+        · exact h
+      exact ih hnd.2 I (fun k hk => hI k (List.mem_cons_of_mem _ hk)) cnt cf cm cps hk2
+    · rw [xa_rvCollectGo_cons E tag j rest I (hI j (by simp)) hji]
+      have hI' : ∀ k ∈ rest, k < (setB I j (rcRestT tag E.n (bsOf I j))).b.length :=
+        fun k hk => by simpa using hI k (List.mem_cons_of_mem _ hk)
+      rcases List.mem_cons.mp hk with h | h
+      · subst h
+        obtain ⟨h1, h2⟩ := xa_rvCollectGo_frame E tag k rest _ hI'
+          (bumpL cnt (rcNewsT tag E.n (bsOf I k)))
+          (cf ++ ((rcNewsT tag E.n (bsOf I k)).filter (fun w => w = E.i)).map (fun _ => k))
+          (cm ++ List.replicate (rcT tag E.n (E.n + 1) 0 [] (bsOf I k)).2.1 k)
+          (cpsL k (rcNewsT tag E.n (bsOf I k)) cps) (Or.inl hnd.1)
+        refine ⟨by rw [h1, ag_bsOf_setB_self _ _ _ (hI k (by simp))], ?_⟩
+        rw [h2]
+        simp [List.mem_append, List.mem_replicate, rcBadT, Nat.pos_iff_ne_zero]
+      · have hkj : j ≠ k := by
+          rintro rfl
+          exact hnd.1 h
+        obtain ⟨h1, h2⟩ := ih hnd.2 (setB I j (rcRestT tag E.n (bsOf I j))) hI'
+          (bumpL cnt (rcNewsT tag E.n (bsOf I j)))
+          (cf ++ ((rcNewsT tag E.n (bsOf I j)).filter (fun w => w = E.i)).map (fun _ => j))
+          (cm ++ List.replicate (rcT tag E.n (E.n + 1) 0 [] (bsOf I j)).2.1 j)
+          (cpsL j (rcNewsT tag E.n (bsOf I j)) cps) h
+        rw [ag_bsOf_setB_ne _ _ _ _ hkj] at h1 h2
+        refine ⟨h1, ?_⟩
+        rw [h2]
+        simp [List.mem_append, List.mem_replicate, Ne.symm hkj]
+
+/-- step 1(c): the counters after the loop -/
+theorem xa_rvCollectGo_cnt (tag : Tag) (L : List Nat) (hL : L.Nodup) (I : Inbox)
+    (hI : ∀ j ∈ L, j < I.b.length) (cnt cf cm : List Nat) (cps : List (List Nat)) (w : Nat) (hw : w < cnt.length) :
+    getN (rvCollectGo E tag L I cnt cf cm cps).2.1 w =
+      getN cnt w + ((L.filter (fun x => x ≠ E.i)).map (fun x => (rcNewsT tag E.n (bsOf I x)).count w)).sum := by
+  induction L generalizing I cnt cf cm cps with
+  | nil => simp [rvCollectGo]
+  | cons j rest ih =>
+    have hnd := List.nodup_cons.mp hL
+    by_cases hji : j = E.i
+    · rw [rvCollectGo]
+      simp only [hji, if_true]
+      rw [ih hnd.2 I (fun k hk => hI k (List.mem_cons_of_mem _ hk)) cnt cf cm cps hw]
+      simp
+    · rw [xa_rvCollectGo_cons E tag j rest I (hI j (by simp)) hji]
+      rw [ih hnd.2 (setB I j (rcRestT tag E.n (bsOf I j)))
+        (fun k hk => by simpa using hI k (List.mem_cons_of_mem _ hk)) _ _ _ _ (by rw [ag_bumpL_length]; exact hw)]
+      rw [ag_bumpL_getN _ _ _ hw]
+      have hcongr : ((rest.filter (fun x => x ≠ E.i)).map
+            (fun x => (rcNewsT tag E.n (bsOf (setB I j (rcRestT tag E.n (bsOf I j))) x)).count w)) =
+          ((rest.filter (fun x => x ≠ E.i)).map (fun x => (rcNewsT tag E.n (bsOf I x)).count w)) := by
+        apply List.map_congr_left
+        intro x hx
+        have hxr : x ∈ rest := (List.mem_filter.mp hx).1
+        have hjx : j ≠ x := by
+          rintro rfl
+          exact hnd.1 hxr
+        rw [ag_bsOf_setB_ne _ _ _ _ hjx]
+      rw [hcongr]
+      simp [hji]
+      omega
+
+/-- step 1(c): who complained against `k` -/
+theorem xa_rvCollectGo_cps (tag : Tag) (L : List Nat) (hL : L.Nodup) (I : Inbox)
+    (hI : ∀ j ∈ L, j < I.b.length) (cnt cf cm : List Nat) (cps : List (List Nat)) (k x : Nat)
+    (hk : k < cps.length) :
+    x ∈ (rvCollectGo E tag L I cnt cf cm cps).2.2.2.2.getD k [] ↔
+      x ∈ cps.getD k [] ∨ (x ∈ L ∧ x ≠ E.i ∧ k ∈ rcNewsT tag E.n (bsOf I x)) := by
+  induction L generalizing I cnt cf cm cps with
+  | nil => simp [rvCollectGo]
+  | cons j rest ih =>
+    have hnd := List.nodup_cons.mp hL
+    by_cases hji : j = E.i
+    · rw [rvCollectGo]
+      simp only [hji, if_true]
+      rw [ih hnd.2 I (fun k hk => hI k (List.mem_cons_of_mem _ hk)) cnt cf cm cps hk]
+      constructor
+      · rintro (h | ⟨h3, h4, h5⟩)
+        · exact Or.inl h
+        · exact Or.inr ⟨List.mem_cons_of_mem _ h3, h4, h5⟩
+      · rintro (h | ⟨h3, h4, h5⟩)
+        · exact Or.inl h
+        · rcases List.mem_cons.mp h3 with e | e
+          · exact absurd e h4
+          · exact Or.inr ⟨e, h4, h5⟩
+    · rw [xa_rvCollectGo_cons E tag j rest I (hI j (by simp)) hji]
+      obtain ⟨f1, f2⟩ := ag_cpsFold_mem j (rcNewsT tag E.n (bsOf I j)) cps k x hk
+      rw [ih hnd.2 (setB I j (rcRestT tag E.n (bsOf I j)))
+        (fun k hk => by simpa using hI k (List.mem_cons_of_mem _ hk)) _ _ _ _
+        (by rw [xa_cpsL_length]; exact hk)]
+      have hfr : ∀ y, y ∈ rest → bsOf (setB I j (rcRestT tag E.n (bsOf I j))) y = bsOf I y := by
+        intro y hy
+        have hjy : j ≠ y := by
+          rintro rfl
+          exact hnd.1 hy
+        exact ag_bsOf_setB_ne _ _ _ _ hjy
+      have f2' : x ∈ (cpsL j (rcNewsT tag E.n (bsOf I j)) cps).getD k [] ↔
+          x ∈ cps.getD k [] ∨ (x = j ∧ k ∈ rcNewsT tag E.n (bsOf I j)) := f2
+      rw [f2']
+      constructor
+      · rintro ((h | ⟨rfl, h⟩) | ⟨h3, h4, h5⟩)
+        · exact Or.inl h
+        · exact Or.inr ⟨by simp, hji, h⟩
+        · rw [hfr x h3] at h5
+          exact Or.inr ⟨List.mem_cons_of_mem _ h3, h4, h5⟩
+      · rintro (h | ⟨h3, h4, h5⟩)
+        · exact Or.inl (Or.inl h)
+        · rcases List.mem_cons.mp h3 with e | e
+          · subst e
+            exact Or.inl (Or.inr ⟨rfl, h5⟩)
+          · rw [← hfr x e] at h5
+            exact Or.inr ⟨e, h4, h5⟩
+
+/-- step 1(c): the senders that complained against the reader -/
+theorem xa_rvCollectGo_cf (tag : Tag) (L : List Nat) (hL : L.Nodup) (I : Inbox)
+    (hI : ∀ j ∈ L, j < I.b.length) (cnt cf cm : List Nat) (cps : List (List Nat)) (x : Nat) :
+    x ∈ (rvCollectGo E tag L I cnt cf cm cps).2.2.1 ↔
+      x ∈ cf ∨ (x ∈ L ∧ x ≠ E.i ∧ E.i ∈ rcNewsT tag E.n (bsOf I x)) := by
+  induction L generalizing I cnt cf cm cps with
+  | nil => simp [rvCollectGo]
+  | cons j rest ih =>
+    have hnd := List.nodup_cons.mp hL
+    by_cases hji : j = E.i
+    · rw [rvCollectGo]
+      simp only [hji, if_true]
+      rw [ih hnd.2 I (fun k hk => hI k (List.mem_cons_of_mem _ hk)) cnt cf cm cps]
+      constructor
+      · rintro (h | ⟨h3, h4, h5⟩)
+        · exact Or.inl h
+        · exact Or.inr ⟨List.mem_cons_of_mem _ h3, h4, h5⟩
+      · rintro (h | ⟨h3, h4, h5⟩)
+        · exact Or.inl h
+        · rcases List.mem_cons.mp h3 with e | e
+          · exact absurd e h4
+          · exact Or.inr ⟨e, h4, h5⟩
+    · rw [xa_rvCollectGo_cons E tag j rest I (hI j (by simp)) hji]
+      rw [ih hnd.2 (setB I j (rcRestT tag E.n (bsOf I j)))
+        (fun k hk => by simpa using hI k (List.mem_cons_of_mem _ hk))]
+      have hfr : ∀ y, y ∈ rest → bsOf (setB I j (rcRestT tag E.n (bsOf I j))) y = bsOf I y := by
+        intro y hy
+        have hjy : j ≠ y := by
+          rintro rfl
+          exact hnd.1 hy
+        exact ag_bsOf_setB_ne _ _ _ _ hjy
+      simp only [List.mem_append, List.mem_map, List.mem_filter, decide_eq_true_eq]
+      constructor
+      · rintro ((h | ⟨a, ⟨h1, h2⟩, rfl⟩) | ⟨h3, h4, h5⟩)
+        · exact Or.inl h
+        · exact Or.inr ⟨by simp, hji, by rw [← h2]; exact h1⟩
+        · rw [hfr x h3] at h5
+          exact Or.inr ⟨List.mem_cons_of_mem _ h3, h4, h5⟩
+      · rintro (h | ⟨h3, h4, h5⟩)
+        · exact Or.inl (Or.inl h)
+        · rcases List.mem_cons.mp h3 with e | e
+          · subst e
+            exact Or.inl (Or.inr ⟨E.i, ⟨h5, rfl⟩, rfl⟩)
+          · rw [← hfr x e] at h5
+            exact Or.inr ⟨e, h4, h5⟩
+
+/-! ### (6) the readers on the streams of a party that follows the protocol -/
+
+theorem xa_reS_honest (tag : Tag) (C : List Int) (hC : ∀ c ∈ C, Dkg.checkElement E.G c = true)
+    (rest : List (Tag × Int)) (acc : List Int) (c : Bool) :
+    reS E.G tag C.length (C.map (fun v => (tag, v)) ++ rest) acc c = (c, rest, acc ++ C) := by
+  induction C generalizing acc with
+  | nil => simp [reS]
+  | cons v C ih =>
+    simp only [List.length_cons, List.map_cons, List.cons_append, reS, xa_popS_cons,
+      hC v (by simp), if_true]
+    rw [ih (fun c hc => hC c (List.mem_cons_of_mem _ hc))]
+    simp
+
+theorem xa_rcT_honest (tag : Tag) (n : Nat) (hn : n < 2 ^ 64) (D : List Nat) (f it : Nat) (dup : List Nat)
+    (hf : D.length + 1 ≤ f) (hit : it + D.length ≤ n) (hD : ∀ x ∈ D, x < n) (hnd : D.Nodup)
+    (hdup : ∀ x ∈ D, x ∉ dup) :
+    rcT tag n f it dup (D.map (fun (j : Nat) => (tag, (j : Int))) ++ [(tag, (n : Int))]) = (D, 0, []) := by
+  induction D generalizing f it dup with
+  | nil =>
+    obtain ⟨f, rfl⟩ : ∃ f', f = f' + 1 := ⟨f - 1, by simp at hf; omega⟩
+    simp [rcT, xa_popS_cons, ag_getUi_nat n hn]
+  | cons x D ih =>
+    obtain ⟨f, rfl⟩ : ∃ f', f = f' + 1 := ⟨f - 1, by simp at hf; omega⟩
+    have hx : x < n := hD x (by simp)
+    have hxd : x ∉ dup := hdup x (by simp)
+    have hnd' := List.nodup_cons.mp hnd
+    simp only [List.length_cons] at hf hit
+    have hrec := ih f (it + 1) (dup ++ [x]) (by omega) (by omega)
+      (fun y hy => hD y (List.mem_cons_of_mem _ hy)) hnd'.2
+      (fun y hy => by
+        simp only [List.mem_append, List.mem_singleton, not_or]
+        exact ⟨hdup y (List.mem_cons_of_mem _ hy), fun e => hnd'.1 (e ▸ hy)⟩)
+    simp only [List.map_cons, List.cons_append, rcT, xa_popS_cons, ag_getUi_nat x (by omega)]
+    have h1 : (x < n ∧ ¬ dup.contains x = true) := ⟨hx, by simpa using hxd⟩
+    have h2 : it + 1 ≤ n := by omega
+    simp only [h1, if_true, h2, hrec]
+    simp
+
+/-- a well-formed answer list: one verifying triple per entry, then the end marker -/
+theorem xa_raT_honest (tag : Tag) (hn : E.n < 2 ^ 64) (Cj : List Int) (σ τ : Nat → Int) (cfs : List Nat) (f : Nat)
+    (hf : cfs.length + 1 ≤ f)
+    (hcfs : ∀ it ∈ cfs, it < E.n ∧ absGe (σ it) E.G.q = false ∧ absGe (τ it) E.G.q = false ∧
+      ∃ l, pedF E.G (σ it) (τ it) = .ok l ∧ commitProd E.G.p (E.pt it) Cj = .ok l) :
+    raT E tag Cj f (cfs.flatMap (fun (it : Nat) => [(tag, (it : Int)), (tag, σ it), (tag, τ it)]) ++
+      [(tag, (E.n : Int))]) = .ok (0, []) := by
+  induction cfs generalizing f with
+  | nil =>
+    obtain ⟨f, rfl⟩ : ∃ f', f = f' + 1 := ⟨f - 1, by simp at hf; omega⟩
+    simp [raT, xa_popS_cons, ag_getUi_nat E.n hn]
+  | cons x cfs ih =>
+    obtain ⟨f, rfl⟩ : ∃ f', f = f' + 1 := ⟨f - 1, by simp at hf; omega⟩
+    obtain ⟨hx, h1, h2, l, hl, hr⟩ := hcfs x (by simp)
+    simp only [List.length_cons] at hf
+    have hrec := ih f (by omega) (fun y hy => hcfs y (List.mem_cons_of_mem _ hy))
+    have hnx : ¬ x ≥ E.n := by omega
+    simp only [List.flatMap_cons, List.cons_append, List.nil_append, raT, xa_popS_cons,
+      ag_getUi_nat x (by omega), hnx, if_false, h1, h2, Bool.false_eq_true, hl, hr, hrec]
+    simp
+
+/-- the answered complainers of a well-formed answer list -/
+theorem xa_anT_honest (tag : Tag) (n : Nat) (hn : n < 2 ^ 64) (σ τ : Nat → Int) (cfs : List Nat) (f : Nat)
+    (hf : cfs.length + 1 ≤ f) (hcfs : ∀ it ∈ cfs, it < n) (acc : List Nat) :
+    anT tag n f (cfs.flatMap (fun (it : Nat) => [(tag, (it : Int)), (tag, σ it), (tag, τ it)]) ++
+      [(tag, (n : Int))]) acc = acc ++ cfs := by
+  induction cfs generalizing f acc with
+  | nil =>
+    obtain ⟨f, rfl⟩ : ∃ f', f = f' + 1 := ⟨f - 1, by simp at hf; omega⟩
+    simp [anT, xa_popS_cons, ag_getUi_nat n hn]
+  | cons x cfs ih =>
+    obtain ⟨f, rfl⟩ : ∃ f', f = f' + 1 := ⟨f - 1, by simp at hf; omega⟩
+    have hx : x < n := hcfs x (by simp)
+    simp only [List.length_cons] at hf
+    have hnx : ¬ x ≥ n := by omega
+    simp only [List.flatMap_cons, List.cons_append, List.nil_append, anT, xa_popS_cons,
+      ag_getUi_nat x (by omega), hnx, if_false]
+    rw [ih f (by omega) (fun y hy => hcfs y (List.mem_cons_of_mem _ hy))]
+    simp
+
+theorem xa_rcT_nodup (tag : Tag) (n : Nat) (f it : Nat) (dup : List Nat) (s : List (Tag × Int)) :
+    (rcT tag n f it dup s).1.Nodup ∧ ∀ x ∈ (rcT tag n f it dup s).1, x ∉ dup := by
+  induction f generalizing it dup s with
+  | zero => simp [rcT]
+  | succ f ih =>
+    unfold rcT
+    rcases popS tag s with ⟨_ | v, s1⟩
+    · simp
+    · simp only
+      split
+      · rename_i h1
+        split
+        · obtain ⟨i1, i2⟩ := ih (it + 1) (dup ++ [getUi v]) s1
+          simp only [List.nodup_cons, List.mem_cons]
+          refine ⟨⟨fun hm => ?_, i1⟩, ?_⟩
+          · have := i2 _ hm
+            simp at this
+          · rintro x (rfl | hx)
+            · simpa using h1.2
+            · have := i2 x hx
+              simp only [List.mem_append, not_or] at this
+              exact this.1
+        · simp only [List.nodup_cons, List.not_mem_nil, not_false_eq_true, List.nodup_nil, and_self,
+            List.mem_singleton, true_and]
+          rintro x rfl
+          simpa using h1.2
+      · split
+        · split
+          · exact ih (it + 1) dup s1
+          · simp
+        · simp
+
+theorem xa_rcNewsT_count_le (tag : Tag) (n : Nat) (s : List (Tag × Int)) (w : Nat) : (rcNewsT tag n s).count w ≤ 1 :=
+  List.nodup_iff_count_le_one.mp (xa_rcT_nodup tag n (n + 1) 0 [] s).1 w
+
+/-! ### (7) the step functions of a party that follows the protocol -/
+
+/-- the sharing after step 1(a), as far as the later steps look at it (`n t i` are those of the
+    environment, the evaluation points are `j + 1`) -/
+structure DealtC (G : Grp) (n t i : Nat) (pin : PartyIn) (rv : Rv) : Prop where
+  zero : rv.zero = false
+  C : rv.C = (zeroRows n t).set i (comOf G t pin)
+  s : rv.s = (zeros n).set i (shA G t pin i)
+  sp : rv.sp = (zeros n).set i (shB G t pin i)
+  srow : rv.srow = (List.range n).map (shA G t pin)
+  sprow : rv.sprow = (List.range n).map (shB G t pin)
+  z : rv.z.natAbs < G.q.natAbs
+  zp : rv.zp.natAbs < G.q.natAbs
+
+theorem xa_coefA_eq (t : Nat) (pin : PartyIn) : Cgjkr.coefA pin.strong 0 t = DkgP.coefA t pin := by
+  simp [Cgjkr.coefA, DkgP.coefA]
+
+theorem xa_coefB_eq (t : Nat) (pin : PartyIn) : Cgjkr.coefB pin.strong 0 t = DkgP.coefB t pin := by
+  simp [Cgjkr.coefB, DkgP.coefB]
+
+theorem xa_getI_mem_or (l : List Int) (k : Nat) : getI l k ∈ l ∨ getI l k = 0 := by
+  unfold getI
+  by_cases hk : k < l.length
+  · rw [List.getD_eq_getElem _ _ hk]
+    exact Or.inl (List.getElem_mem hk)
+  · rw [List.getD_eq_default _ _ (by omega)]
+    exact Or.inr rfl
+
+theorem xa_rvDeal_honest (hG : ValidGrp E.G) (hpt : ∀ j, j < E.n → E.pt j = j + 1) (tag : Tag) (rnd : Bool)
+    (pin : PartyIn) (hc : goodCoins E.G E.t pin) (hi : E.i < E.n) :
+    ∃ rv, rvDeal E tag false false rnd (Cgjkr.coefA pin.strong 0 E.t) (Cgjkr.coefB pin.strong 0 E.t) =
+        .ok (rv, (comOf E.G E.t pin).map (Op.bc tag) ++ ((List.range E.n).filter (· ≠ E.i)).flatMap
+          (fun j => [Op.pv j (getI rv.srow j), Op.pv j (getI rv.sprow j)])) ∧
+      DealtC E.G E.n E.t E.i pin rv := by
+  obtain ⟨ha, hb, hla, hlb⟩ := ag_coef_range (G := E.G) E.t pin hc
+  obtain ⟨ga, hb', h1, h2, h3⟩ := ag_ga_hb_commit hG (DkgP.coefA E.t pin) (DkgP.coefB E.t pin) (hla.trans hlb.symm) ha hb
+  have hcom := (ag_comOf_spec hG E.t pin hc).1
+  rw [h3] at hcom
+  injection hcom with hcom
+  rw [xa_coefA_eq, xa_coefB_eq]
+  unfold rvDeal
+  simp only [h1, h2, bind, Except.bind, pure, Except.pure, hcom]
+  refine ⟨_, rfl, ?_⟩
+  have hsA : (List.range E.n).map (fun j => evalShare E.G.q (DkgP.coefA E.t pin) (E.pt j)) =
+      (List.range E.n).map (shA E.G E.t pin) := by
+    apply List.map_congr_left
+    intro j hj
+    rw [hpt j (List.mem_range.mp hj)]
+    rfl
+  have hsB : (List.range E.n).map (fun j => evalShare E.G.q (DkgP.coefB E.t pin) (E.pt j)) =
+      (List.range E.n).map (shB E.G E.t pin) := by
+    apply List.map_congr_left
+    intro j hj
+    rw [hpt j (List.mem_range.mp hj)]
+    rfl
+  have hz : ∀ l : List Int, (∀ c ∈ l, 0 ≤ c ∧ c < E.G.q) → (getI l 0).natAbs < E.G.q.natAbs := by
+    intro l hl
+    rcases xa_getI_mem_or l 0 with h | h
+    · exact natAbs_lt_of_range (hl _ h)
+    · rw [h]
+      have hq0 : 0 < E.G.q := hG.vg.q_pos
+      omega
+  constructor
+  · rfl
+  · rfl
+  · simp [hsA, ag_getI_map_range _ _ E.i hi]
+  · simp [hsB, ag_getI_map_range _ _ E.i hi]
+  · simp [hsA]
+  · simp [hsB]
+  · exact hz _ ha
+  · exact hz _ hb
+
+/-- step 1(b) for a party whose stored shares are in range -/
+theorem xa_rvVerify_spec (hG : ValidGrp E.G) (tag : Tag) (rv : Rv) (I : Inbox) (hz : rv.zero = false)
+    (hb : I.b.length = E.n) (hp : I.p.length = E.n) (hC : rv.C.length = E.n) (hs : rv.s.length = E.n)
+    (hsp : rv.sp.length = E.n) (hsr : InR E.G.q rv.s) (hspr : InR E.G.q rv.sp) :
+    ∃ (rv' : Rv) (I' : Inbox) (D : List Nat), rvVerify E tag rv I =
+        .ok (rv', I', D.map (fun (j : Nat) => Op.bc tag (j : Int)) ++ [Op.bc tag (E.n : Int)]) ∧
+      rv'.srow = rv.srow ∧ rv'.sprow = rv.sprow ∧ rv'.z = rv.z ∧ rv'.zp = rv.zp ∧
+      D.Nodup ∧ (∀ x ∈ D, x < E.n) ∧
+      rv'.cnt = (List.range E.n).map (fun j => if D.contains j then 1 else 0) ∧
+      I'.b.length = E.n ∧ rv'.C.length = E.n ∧
+      (∀ k, k < E.n → k ≠ E.i →
+        bsOf I' k = (reS E.G tag (E.t + 1) (bsOf I k) [] false).2.1 ∧
+        getRow rv'.C k = padRow E.t (reS E.G tag (E.t + 1) (bsOf I k) [] false).2.2) ∧
+      bsOf I' E.i = bsOf I E.i ∧ getRow rv'.C E.i = getRow rv.C E.i ∧
+      (∀ k v w a l, k < E.n → k ≠ E.i → (reS E.G tag (E.t + 1) (bsOf I k) [] false).1 = false →
+        psOf I k = [v, w] → absGe v E.G.q = false → absGe w E.G.q = false → pedS E.G v w = .ok (a, l) →
+        commitProd E.G.p (E.pt E.i) (padRow E.t (reS E.G tag (E.t + 1) (bsOf I k) [] false).2.2) = .ok l →
+        k ∉ D) ∧
+      (∀ a l, pedS E.G (getI rv.s E.i) (getI rv.sp E.i) = .ok (a, l) →
+        commitProd E.G.p (E.pt E.i) (getRow rv.C E.i) = .ok l → E.i ∉ D) ∧
+      rv'.complainers = (List.range E.n).map (fun j => if D.contains j then [E.i] else []) ∧
+      InR E.G.q rv'.s := by
+  have hq : 0 < E.G.q := hG.vg.q_pos
+  have hIb : ∀ j ∈ List.range E.n, j < I.b.length := fun j hj => by rw [hb]; exact List.mem_range.mp hj
+  obtain ⟨g1, g2, g3⟩ := xa_rvReadC_glob E tag (List.range E.n) I hIb rv.C []
+  rcases h1 : rvReadC E tag (List.range E.n) I rv.C [] with ⟨I1, C, cm1⟩
+  rw [h1] at g1 g2 g3
+  simp only at g1 g2 g3
+  have hIp : ∀ j ∈ List.range E.n, j < I1.p.length := fun j hj => by
+    rw [g2, hp]; exact List.mem_range.mp hj
+  obtain ⟨k1, k2, k3, k4, k5⟩ := ag_genReadShares_glob E.G.q hq (gstOf E) (List.range E.n) I1 hIp rv.s rv.sp cm1
+  rw [← xa_rvReadShares_eq] at k1 k2 k3 k4 k5
+  rcases h2 : rvReadShares E (List.range E.n) I1 rv.s rv.sp cm1 with ⟨I2, s, sp, cm2⟩
+  rw [h2] at k1 k2 k3 k4 k5
+  simp only at k1 k2 k3 k4 k5
+  obtain ⟨cm3, h3, hm3⟩ := xa_rvCheck E hG C s sp (k4 hsr) (k5 hspr) (List.range E.n) cm2
+  refine ⟨{ rv with C := C, s := s, sp := sp, cnt := (List.range E.n).map (fun j => if (sortUniq E.n cm3).contains j then 1 else 0), complainers := (List.range E.n).map (fun j => if (sortUniq E.n cm3).contains j then [E.i] else []), compl := [] },
+    I2, sortUniq E.n cm3, ?_, rfl, rfl, rfl, rfl, ag_sortUniq_nodup _ _,
+    fun x hx => ((ag_mem_sortUniq _ _ _).mp hx).1, rfl, ?_, ?_, ?_, ?_, ?_, ?_, ?_, rfl, k4 hsr⟩
+  · unfold rvVerify
+    simp only [h1, h2, hz, h3, bind, Except.bind, pure, Except.pure]
+  · rw [show I2.b = I1.b from k1, g1, hb]
+  · exact g3.trans hC
+  · intro k hk hki
+    have := xa_rvReadC_hit E tag k (List.range E.n) List.nodup_range I hIb rv.C []
+      (List.mem_range.mpr hk) hki
+    rw [h1] at this
+    obtain ⟨t1, t2, -⟩ := this
+    refine ⟨?_, t2 (by rw [hC]; exact hk)⟩
+    show I2.b.getD k [] = _
+    rw [k1]
+    exact t1
+  · have := xa_rvReadC_frame E tag E.i (List.range E.n) I hIb rv.C [] (Or.inr rfl)
+    rw [h1] at this
+    show I2.b.getD E.i [] = _
+    rw [k1]
+    exact this.1
+  · have := xa_rvReadC_frame E tag E.i (List.range E.n) I hIb rv.C [] (Or.inr rfl)
+    rw [h1] at this
+    exact this.2.1
+  · intro k v w a l hk hki hre hps hv hw hped hcp hkD
+    have hkm := ((ag_mem_sortUniq _ _ _).mp hkD).2
+    have c1 := xa_rvReadC_hit E tag k (List.range E.n) List.nodup_range I hIb rv.C []
+      (List.mem_range.mpr hk) hki
+    rw [h1] at c1
+    obtain ⟨-, c12, c13⟩ := c1
+    simp only at c12 c13
+    have hps1 : psOf I1 k = [v, w] := by
+      show I1.p.getD k [] = _
+      rw [g2]
+      exact hps
+    have c2 := ag_genReadShares_hit E.G.q (gstOf E) k (List.range E.n) List.nodup_range I1 hIp rv.s rv.sp cm1
+      (List.mem_range.mpr hk) hki v w hps1 hv hw (by rw [hs]; exact hk) (by rw [hsp]; exact hk)
+    rw [← xa_rvReadShares_eq, h2] at c2
+    obtain ⟨c21, c22, c23⟩ := c2
+    simp only at c21 c22 c23
+    rcases (hm3 k).mp hkm with h | ⟨-, h⟩
+    · rw [c23, c13] at h
+      simp [hre] at h
+    · simp [chkT, c21, c22, hped, c12 (by rw [hC]; exact hk), hcp] at h
+  · intro a l hped hcp hkD
+    have hkm := ((ag_mem_sortUniq _ _ _).mp hkD).2
+    have c1 := xa_rvReadC_frame E tag E.i (List.range E.n) I hIb rv.C [] (Or.inr rfl)
+    rw [h1] at c1
+    obtain ⟨-, c12, c13⟩ := c1
+    simp only at c12 c13
+    have c2 := ag_genReadShares_frame E.G.q (gstOf E) E.i (List.range E.n) I1 hIp rv.s rv.sp cm1 (Or.inr rfl)
+    rw [← xa_rvReadShares_eq, h2] at c2
+    obtain ⟨c21, c22, c23⟩ := c2
+    simp only at c21 c22 c23
+    rcases (hm3 E.i).mp hkm with h | ⟨-, h⟩
+    · rw [c23, c13] at h
+      simp at h
+    · simp [chkT, c21, c22, hped, c12, hcp] at h
+
+/-- step 1(c) -/
+theorem xa_rvCollect_spec (tag : Tag) (rv : Rv) (I : Inbox) (hb : I.b.length = E.n) (hcnt : rv.cnt.length = E.n) :
+    ∃ (rv' : Rv) (I' : Inbox) (cfs : List Nat), rvCollect E tag rv I =
+        (rv', I', (if getN rv'.cnt E.i > 0 then cfs.flatMap (fun (it : Nat) =>
+            [Op.bc tag (it : Int), Op.bc tag (getI rv.srow it), Op.bc tag (getI rv.sprow it)]) else []) ++
+          [Op.bc tag (E.n : Int)]) ∧
+      rv'.C = rv.C ∧ rv'.z = rv.z ∧ rv'.zp = rv.zp ∧
+      cfs.length ≤ E.n ∧ (∀ x ∈ cfs, x < E.n) ∧ I'.b.length = E.n ∧ rv'.cnt.length = E.n ∧
+      (∀ k, k < E.n → k ≠ E.i → bsOf I' k = rcRestT tag E.n (bsOf I k)) ∧
+      (∀ w, w < E.n → getN rv'.cnt w = getN rv.cnt w +
+        (((List.range E.n).filter (fun x => x ≠ E.i)).map (fun x => (rcNewsT tag E.n (bsOf I x)).count w)).sum) ∧
+      (∀ k, k ∈ rv'.compl ↔ k < E.n ∧ k ≠ E.i ∧ rcBadT tag E.n (bsOf I k) = true) ∧
+      rv'.complainers.length = rv.complainers.length ∧
+      (∀ k x, k < rv.complainers.length → (x ∈ rv'.complainers.getD k [] ↔
+        x ∈ rv.complainers.getD k [] ∨ (x < E.n ∧ x ≠ E.i ∧ k ∈ rcNewsT tag E.n (bsOf I x)))) ∧
+      (∀ x, x ∈ cfs ↔ x < E.n ∧ x ≠ E.i ∧ E.i ∈ rcNewsT tag E.n (bsOf I x)) ∧ rv'.s = rv.s := by
+  have hIb : ∀ j ∈ List.range E.n, j < I.b.length := fun j hj => by rw [hb]; exact List.mem_range.mp hj
+  obtain ⟨g1, g2, g3, g4⟩ := xa_rvCollectGo_glob E tag (List.range E.n) I hIb rv.cnt [] [] rv.complainers
+  have hcn := fun w (hw : w < E.n) => xa_rvCollectGo_cnt E tag (List.range E.n) List.nodup_range I hIb rv.cnt [] []
+    rv.complainers w (by rw [hcnt]; exact hw)
+  have hhit := fun k (hk : k < E.n) (hki : k ≠ E.i) => xa_rvCollectGo_hit E tag k (List.range E.n)
+    List.nodup_range I hIb rv.cnt [] [] rv.complainers (List.mem_range.mpr hk) hki
+  have hfr := fun k (hk : k ∉ List.range E.n ∨ k = E.i) => xa_rvCollectGo_frame E tag k (List.range E.n) I hIb
+    rv.cnt [] [] rv.complainers hk
+  have hcps := fun k x (hk : k < rv.complainers.length) => xa_rvCollectGo_cps E tag (List.range E.n)
+    List.nodup_range I hIb rv.cnt [] [] rv.complainers k x hk
+  have hcf := fun x => xa_rvCollectGo_cf E tag (List.range E.n) List.nodup_range I hIb rv.cnt [] [] rv.complainers x
+  rcases h1 : rvCollectGo E tag (List.range E.n) I rv.cnt [] [] rv.complainers with ⟨I1, cnt, cf, cm, cps⟩
+  rw [h1] at g1 g2 g3 g4 hcn hhit hfr hcps hcf
+  simp only at g1 g2 g3 g4 hcn hhit hfr hcps hcf
+  refine ⟨{ rv with cnt := cnt, cfrom := sortUniq E.n cf, complainers := cps, compl := cm }, I1, sortUniq E.n cf, ?_,
+    rfl, rfl, rfl, ag_sortUniq_length _ _, fun x hx => ((ag_mem_sortUniq _ _ _).mp hx).1, g1.trans hb,
+    g3.trans hcnt, fun k hk hki => (hhit k hk hki).1, hcn, ?_, g4, ?_, ?_, rfl⟩
+  · unfold rvCollect
+    simp only [h1]
+  · intro k
+    show k ∈ cm ↔ _
+    by_cases hk : k < E.n
+    · by_cases hki : k = E.i
+      · have := (hfr k (Or.inr hki)).2
+        rw [this]
+        simp [hki]
+      · have := (hhit k hk hki).2
+        simp [this, hk, hki]
+    · have := (hfr k (Or.inl (by simpa using hk))).2
+      simp [this, hk]
+  · intro k x hk
+    have := hcps k x hk
+    simpa using this
+  · intro x
+    rw [ag_mem_sortUniq, hcf x]
+    simp only [List.not_mem_nil, false_or, List.mem_range]
+    constructor
+    · rintro ⟨h1, -, h2, h3⟩
+      exact ⟨h1, h2, h3⟩
+    · rintro ⟨h1, h2, h3⟩
+      exact ⟨h1, h1, h2, h3⟩
+
+/-- steps 1(d) and 2: the set QUAL -/
+theorem xa_rvResolve_spec (hG : ValidGrp E.G) (tag : Tag) (rv : Rv) (I : Inbox) (hb : I.b.length = E.n)
+    (hs : InR E.G.q rv.s) :
+    ∃ (rv' : Rv) (I' : Inbox), rvResolve E tag rv I = .ok (rv', I') ∧ rv'.z = rv.z ∧ rv'.zp = rv.zp ∧
+      (∃ p : Nat → Bool, rv'.qual = (List.range E.n).filter p) ∧
+      ∀ k, k ∈ rv'.qual ↔ k < E.n ∧ ¬ (k ∈ rv.compl ∨ E.t < getN rv.cnt k ∨
+        (k ≠ E.i ∧ (raBadT E tag (getRow rv.C k) (bsOf I k) = true ∨ unBT E tag rv k (bsOf I k) = true))) := by
+  have hIb : ∀ j ∈ List.range E.n, j < I.b.length := fun j hj => by rw [hb]; exact List.mem_range.mp hj
+  obtain ⟨I1, s, sp, cm, h1, hin, hm⟩ := xa_rvResolveGo E hG tag rv (List.range E.n) List.nodup_range I hIb
+    rv.s rv.sp rv.compl
+  have hq : ∀ k, k ∈ (List.range E.n).filter (fun j => !cm.contains j) ↔ k < E.n ∧ ¬ (k ∈ rv.compl ∨
+      E.t < getN rv.cnt k ∨ (k ≠ E.i ∧ (raBadT E tag (getRow rv.C k) (bsOf I k) = true ∨
+        unBT E tag rv k (bsOf I k) = true))) := by
+    intro k
+    simp only [List.mem_filter, List.mem_range, Bool.not_eq_true', List.contains_eq_mem,
+      decide_eq_false_iff_not, hm k]
+    constructor
+    · rintro ⟨hk, h⟩
+      refine ⟨hk, fun h2 => h ?_⟩
+      rcases h2 with h2 | h2 | h2
+      · exact Or.inl h2
+      · exact Or.inr ⟨hk, Or.inl h2⟩
+      · exact Or.inr ⟨hk, Or.inr h2⟩
+    · rintro ⟨hk, h⟩
+      refine ⟨hk, fun h2 => h ?_⟩
+      rcases h2 with h2 | ⟨-, h2 | h2⟩
+      · exact Or.inl h2
+      · exact Or.inr (Or.inl h2)
+      · exact Or.inr (Or.inr h2)
+  unfold rvResolve
+  simp only [h1, bind, Except.bind, pure, Except.pure]
+  exact ⟨_, _, rfl, rfl, rfl, ⟨_, rfl⟩, hq⟩
 
 end Tmcg.CgjkrP
